@@ -233,6 +233,7 @@ def math_part(U, boxes):
 
 
 META = dict(
+    technique='CBMC 6.11 function contracts (dfcc, uninterpreted scalar arithmetic) for the box/range operations + z3 (real arithmetic) lemmas over VCs generated from the same extracted IR for ray/box and xfmBounds',
     level="proof",
     level_text="Every range_t/box_t function listed is extracted from /repo on each run and its contract (written from the property statement: closed-set membership, min/max lattice operations, emptiness) is enforced by CBMC for all operand values (int32 exactly; float with a no-NaN precondition, comparisons are bit-precise and arithmetic is uninterpreted); the set-level clauses (intersection contains exactly the common points; extend is the smallest enclosing box with the empty box as identity; intersection-empty <=> disjoint <=> not touching incl. empty operands; clamp lands inside) are lemmas proved from the callee contracts for a symbolic point and symbolic boxes, so faces, edges, corners and empty operands are all covered. center/area/volume, xfmBounds (image of every point is inside) and intersectRayBox (exact parameter interval) are decided over the reals by z3 on VCs generated from the same extracted code.",
     level_note="Trusted: clang AST + cxx2c extractor + prelude models of std::min/max; CBMC; z3. Float instantiations assume no NaN; real-mode obligations treat machine arithmetic as mathematical, so 'within rounding' is not quantified. intersectRayBox assumes |dir.c| >= FLT_MIN (rcp_safe is then the reciprocal) and a non-empty box.",
